@@ -15,6 +15,7 @@ fn main() {
     "c05worker" => vh::engines::c05::worker(&args[2..]),
     "c06" => vh::engines::c06::run(),
     "c07" => vh::engines::c07::run(),
+    "c08" => vh::engines::c08::run(),
     "c09" => vh::engines::c09::run(),
     "c10" => vh::engines::c10::run(),
     "c13" => vh::engines::c13::run(),
